@@ -22,8 +22,10 @@ fn main() {
         "C03" => main_for::<props::c03::P>(rest),
         "C04" => main_for::<props::c04::P>(rest),
         "C07" => main_for::<props::c07::P>(rest),
+        "C08" => main_for::<props::c08::P>(rest),
         "C13" => main_for::<props::c13::P>(rest),
         "C16" => main_for::<props::c16::P>(rest),
+        "C20" => main_for::<props::c20::P>(rest),
         _ => {
             eprintln!("unknown property {id}");
             2
